@@ -162,6 +162,9 @@ def _guards_on(ctx, f: FuncInfo, var: str, _depth: int = 0):
                 applies = applies + ("isinstance:" + norm(t_),)
         if any(a.startswith("isinstance") for a in applies):
             WRAPPED.setdefault((f.qual, var), []).append((gd, applies))
+        if "truthy" in applies and isinstance(c, Interval) and not _contains_zero(c):
+            # `if x and not (lo <= x <= hi)`: the falsy value 0 skips the check although 0 is outside [lo, hi]
+            HOLES.setdefault((f.qual, var), []).append((gd, c))
         cons.append(c)
         nodes.append(gd)
     return cons, unparsed, nodes
@@ -175,6 +178,13 @@ class _CallGuard:
         self.stmt = stmt
 
 
+def _contains_zero(i: Interval) -> bool:
+    lo_ok = i.lo is None or i.lo < 0 or (i.lo == 0 and i.lo_closed)
+    hi_ok = i.hi is None or i.hi > 0 or (i.hi == 0 and i.hi_closed)
+    return lo_ok and hi_ok
+
+
+HOLES: dict = {}
 WRAPPED: dict = {}
 TYPE_GUARDS: dict = {}
 
@@ -270,6 +280,8 @@ def r3_documented_ranges(ctx):
             iv = [c for c in cons if isinstance(c, Interval)]
             ok = iv == [want]
             ctx.check(ok, f"{cq}.{name}#{side}", f"{side} accepts {want}" if ok else f"{side} accepts {_fmt(iv)} instead of the documented {want}", where=f, node=nodes[0].test if nodes else f.node)
+            for gd_, c_ in HOLES.get((f.qual, var), []):
+                ctx.fail(f"{cq}.{name}#{side}-zero", f"{side}: the range check is skipped for the falsy value 0 (`{norm(gd_.test)[:70]}`), and 0 is outside the documented {want}: 0 is accepted", where=f, node=gd_.test)
     # subclasses must not override validated setters / constructors without the guards
     geo = ctx.cls("pyxel.detectors.geometry:Geometry")
     for sub in ctx.repo.subclasses(geo):
